@@ -202,6 +202,7 @@ class NixSourceCode:
 
             # The chain visible inside *target*: what encloses it plus its own
             # let layers (and `with` environment / call parameters).
+            enclosing = scopes
             if scopes is None:
                 scopes = scopes_for_owner(target)
             else:
@@ -251,6 +252,8 @@ class NixSourceCode:
                 case Parenthesis():
                     return resolve_nested(target.value, scopes=scopes)
                 case AttributeSet():
+                    if enclosing:
+                        set_resolution_context(target, enclosing)
                     return target
                 case FunctionCall():
                     argument = target.argument
